@@ -109,21 +109,21 @@ fn allow_names_get_and_head(v: &[u8]) -> bool {
 }
 
 /// C14: validators and metadata on 200/206/304/412/416.
-pub fn check_common_headers(h: &HeaderMap, d: &EntDraw) {
-    assert!(count_hdr(h, &header::ACCEPT_RANGES) == 1, "C14: Accept-Ranges missing or repeated");
-    assert!(bytes_eq(hdr(h, &header::ACCEPT_RANGES).unwrap(), b"bytes"), "C14: Accept-Ranges is not bytes");
+pub fn check_common_headers(sn: &Snap<'_>, d: &EntDraw) {
+    assert!(sn.count[S_ACCEPT_RANGES] == 1, "C14: Accept-Ranges missing or repeated");
+    assert!(bytes_eq(sn.val[S_ACCEPT_RANGES].unwrap(), b"bytes"), "C14: Accept-Ranges is not bytes");
     match etag_text(d.etag) {
         Some(t) => {
-            assert!(count_hdr(h, &header::ETAG) == 1, "C14: ETag missing or repeated");
-            assert!(bytes_eq(hdr(h, &header::ETAG).unwrap(), t.as_bytes()), "C14: ETag altered");
+            assert!(sn.count[S_ETAG] == 1, "C14: ETag missing or repeated");
+            assert!(bytes_eq(sn.val[S_ETAG].unwrap(), t.as_bytes()), "C14: ETag altered");
         }
-        None => assert!(count_hdr(h, &header::ETAG) == 0, "C14: ETag invented"),
+        None => assert!(sn.count[S_ETAG] == 0, "C14: ETag invented"),
     }
     if d.has_mtime {
-        assert!(count_hdr(h, &header::DATE) == 1, "C14: Date missing");
-        assert!(count_hdr(h, &header::LAST_MODIFIED) == 1, "C14: Last-Modified missing");
-        let date = httpdate::model_parse_bytes(hdr(h, &header::DATE).unwrap());
-        let lm = httpdate::model_parse_bytes(hdr(h, &header::LAST_MODIFIED).unwrap());
+        assert!(sn.count[S_DATE] == 1, "C14: Date missing");
+        assert!(sn.count[S_LAST_MODIFIED] == 1, "C14: Last-Modified missing");
+        let date = httpdate::model_parse_bytes(sn.val[S_DATE].unwrap());
+        let lm = httpdate::model_parse_bytes(sn.val[S_LAST_MODIFIED].unwrap());
         assert!(date.is_some() && lm.is_some(), "C14: unparseable Date/Last-Modified");
         let (date, lm) = (date.unwrap(), lm.unwrap());
         assert!(lm <= date, "C14: Last-Modified exceeds Date");
@@ -133,21 +133,17 @@ pub fn check_common_headers(h: &HeaderMap, d: &EntDraw) {
         }
         assert!(date == d.now_secs, "C14: Date is not the current second");
     } else {
-        assert!(count_hdr(h, &header::LAST_MODIFIED) == 0, "C14: Last-Modified invented");
+        assert!(sn.count[S_LAST_MODIFIED] == 0, "C14: Last-Modified invented");
     }
 }
 
-pub fn entity_headers_present(h: &HeaderMap, d: &EntDraw) -> bool {
-    let a = d.nhdr < 1
-        || (count_hdr(h, &header::CONTENT_TYPE) == 1
-            && bytes_eq(hdr(h, &header::CONTENT_TYPE).unwrap(), EH0.1.as_bytes()));
-    let x = HeaderName::from_static(EH1.0);
-    let b = d.nhdr < 2 || (count_hdr(h, &x) == 1 && bytes_eq(hdr(h, &x).unwrap(), EH1.1.as_bytes()));
+pub fn entity_headers_present(sn: &Snap<'_>, d: &EntDraw) -> bool {
+    let a = d.nhdr < 1 || (sn.count[S_CONTENT_TYPE] == 1 && bytes_eq(sn.val[S_CONTENT_TYPE].unwrap(), EH0.1.as_bytes()));
+    let b = d.nhdr < 2 || (sn.count[S_CONTENT_LANGUAGE] == 1 && bytes_eq(sn.val[S_CONTENT_LANGUAGE].unwrap(), EH1.1.as_bytes()));
     a && b
 }
-pub fn entity_headers_absent(h: &HeaderMap) -> bool {
-    let x = HeaderName::from_static(EH1.0);
-    count_hdr(h, &x) == 0 && (count_hdr(h, &header::CONTENT_TYPE) == 0)
+pub fn entity_headers_absent(sn: &Snap<'_>) -> bool {
+    sn.count[S_CONTENT_LANGUAGE] == 0 && sn.count[S_CONTENT_TYPE] == 0
 }
 
 /// Body of a 200 / single-range 206 for GET: exactly entity bytes a..b, contiguous, in order.
@@ -229,30 +225,44 @@ pub fn check_small_body(resp: Response<crate::body::Body<Chunk, HErr>>) {
 // SCENARIO serve_plain: method:u8 | EntDraw | script(K_CALLS x K_EV x (kind:u8 n:u64))
 
 #[kani::proof]
-#[kani::unwind(24)]
+#[kani::unwind(12)]
 #[kani::stub(std::time::SystemTime::now, hc::stub_now)]
 #[kani::stub(core::slice::memchr::memchr, hc::naive_memchr)]
 pub fn serve_plain() {
     let method: u8 = kani::any();
     kani::assume(method <= 3);
     let d = draw_ent();
+    serve_plain_body(method, d)
+}
+
+/// Structural choices fixed (constants), numbers symbolic.
+pub fn serve_plain_cfg(method: u8, etag: u8, has_mtime: bool, nhdr: u8) {
+    let mut d = draw_ent();
+    d.etag = etag;
+    d.has_mtime = has_mtime;
+    d.nhdr = nhdr;
+    serve_plain_body(method, d)
+}
+
+pub fn serve_plain_body(method: u8, d: EntDraw) {
     draw_script(false);
     let req = request(method);
     let resp = serve(ent_of(&d), &req);
     let st = resp.status().as_u16();
+    let sn = snap(resp.headers());
     if method != M_GET && method != M_HEAD {
         assert!(st == 405, "C13: non-GET/HEAD method not answered 405");
-        let allow = hdr(resp.headers(), &header::ALLOW);
+        let allow = sn.val[S_ALLOW];
         assert!(allow.is_some() && allow_names_get_and_head(allow.unwrap()), "C13: Allow does not name GET and HEAD");
         check_small_body(resp);
         return;
     }
     assert!(st == 200, "C03: request without Range not answered 200");
-    check_common_headers(resp.headers(), &d);
-    assert!(entity_headers_present(resp.headers(), &d), "C14: entity headers missing on 200");
-    assert!(count_hdr(resp.headers(), &header::CONTENT_RANGE) == 0, "C02: Content-Range on a 200");
-    assert!(count_hdr(resp.headers(), &header::CONTENT_LENGTH) == 1, "C01: 200 without exactly one Content-Length");
-    let cl = parse_whole_decimal(hdr(resp.headers(), &header::CONTENT_LENGTH).unwrap());
+    check_common_headers(&sn, &d);
+    assert!(entity_headers_present(&sn, &d), "C14: entity headers missing on 200");
+    assert!(sn.count[S_CONTENT_RANGE] == 0, "C02: Content-Range on a 200");
+    assert!(sn.count[S_CONTENT_LENGTH] == 1, "C01: 200 without exactly one Content-Length");
+    let cl = parse_whole_decimal(sn.val[S_CONTENT_LENGTH].unwrap());
     assert!(cl == Some(d.len), "C01: Content-Length is not the entity length");
     if method == M_HEAD {
         check_empty_body(resp);
@@ -386,23 +396,25 @@ pub fn serve_range1_body(form: u8) {
         _ => {
             // a date equal to what Last-Modified will say: may be refused (and is)
             let lm = if (d.m_secs, d.m_nanos) > (d.now_secs, d.now_nanos) { d.now_secs } else { d.m_secs };
-            let tok = httpdate::model_token(lm);
-            req.headers_mut().insert(header::IF_RANGE, HeaderValue::model_from_vec(tok.into_bytes()));
+            let tok = httpdate::model_token_bytes(lm);
+            req.headers_mut().insert(header::IF_RANGE, HeaderValue::model_from_inline(&tok));
             false
         }
     };
 
     let resp = serve(ent_of(&d), &req);
     let st = resp.status().as_u16();
-    check_common_headers(resp.headers(), &d);
+    let sn = snap(resp.headers());
+    check_common_headers(&sn, &d);
 
     if !if_range_matches {
         // C05: complete representation, no Content-Range
         assert!(st == 200, "C05: Range honoured although If-Range does not match a strong ETag");
-        assert!(count_hdr(resp.headers(), &header::CONTENT_RANGE) == 0, "C05: Content-Range on a 200");
-        let cl = parse_whole_decimal(hdr(resp.headers(), &header::CONTENT_LENGTH).unwrap());
+        assert!(sn.count[S_CONTENT_RANGE] == 0, "C05: Content-Range on a 200");
+        assert!(sn.count[S_CONTENT_LENGTH] == 1, "C01: 200 without exactly one Content-Length");
+        let cl = parse_whole_decimal(sn.val[S_CONTENT_LENGTH].unwrap());
         assert!(cl == Some(d.len), "C01: Content-Length is not the entity length");
-        assert!(entity_headers_present(resp.headers(), &d), "C14: entity headers missing on 200");
+        assert!(entity_headers_present(&sn, &d), "C14: entity headers missing on 200");
         if method == M_HEAD {
             check_empty_body(resp);
         } else {
@@ -415,26 +427,27 @@ pub fn serve_range1_body(form: u8) {
     match oracle::resolve_spec(spec, d.len) {
         None => {
             assert!(st == 416, "C03: range set that selects nothing not answered 416");
-            let cr = hdr(resp.headers(), &header::CONTENT_RANGE);
+            let cr = sn.val[S_CONTENT_RANGE];
             assert!(cr.is_some(), "C03: 416 without Content-Range");
             assert!(parse_unsat_content_range(cr.unwrap()) == Some(d.len), "C03: 416 Content-Range is not bytes */L");
-            assert!(entity_headers_absent(resp.headers()), "C14: entity headers on 416");
+            assert!(entity_headers_absent(&sn), "C14: entity headers on 416");
+            assert!(sn.count[S_CONTENT_LENGTH] == 0, "C01: Content-Length on a 416");
             check_empty_body(resp);
             kani::cover!(d.len > 0, "416 on a non-empty entity");
         }
         Some((a, b)) => {
             assert!(st == 206, "C03: satisfiable single range not answered 206");
-            let cr = hdr(resp.headers(), &header::CONTENT_RANGE);
-            assert!(cr.is_some() && count_hdr(resp.headers(), &header::CONTENT_RANGE) == 1, "C02: 206 without Content-Range");
+            let cr = sn.val[S_CONTENT_RANGE];
+            assert!(cr.is_some() && sn.count[S_CONTENT_RANGE] == 1, "C02: 206 without Content-Range");
             let got = parse_content_range(cr.unwrap());
             assert!(got == Some((a, b - 1, d.len)), "C02/C03: Content-Range does not name the RFC range a-b/L");
-            assert!(count_hdr(resp.headers(), &header::CONTENT_LENGTH) == 1, "C01: 206 without Content-Length");
-            let cl = parse_whole_decimal(hdr(resp.headers(), &header::CONTENT_LENGTH).unwrap());
+            assert!(sn.count[S_CONTENT_LENGTH] == 1, "C01: 206 without Content-Length");
+            let cl = parse_whole_decimal(sn.val[S_CONTENT_LENGTH].unwrap());
             assert!(cl == Some(b - a), "C01: Content-Length is not the range length");
             if ir == IR_ABSENT {
-                assert!(entity_headers_present(resp.headers(), &d), "C14: entity headers missing on 206 without If-Range");
+                assert!(entity_headers_present(&sn, &d), "C14: entity headers missing on 206 without If-Range");
             } else {
-                assert!(entity_headers_absent(resp.headers()), "C05: entity headers on 206 under If-Range");
+                assert!(entity_headers_absent(&sn), "C05: entity headers on 206 under If-Range");
             }
             if method == M_HEAD {
                 check_empty_body(resp);
@@ -448,7 +461,7 @@ pub fn serve_range1_body(form: u8) {
 }
 
 #[kani::proof]
-#[kani::unwind(24)]
+#[kani::unwind(12)]
 #[kani::stub(std::time::SystemTime::now, hc::stub_now)]
 #[kani::stub(core::slice::memchr::memchr, hc::naive_memchr)]
 #[kani::stub(<u64 as std::str::FromStr>::from_str, stub_u64_from_str)]
@@ -456,7 +469,7 @@ pub fn serve_range1_fl() {
     serve_range1_body(0)
 }
 #[kani::proof]
-#[kani::unwind(24)]
+#[kani::unwind(12)]
 #[kani::stub(std::time::SystemTime::now, hc::stub_now)]
 #[kani::stub(core::slice::memchr::memchr, hc::naive_memchr)]
 #[kani::stub(<u64 as std::str::FromStr>::from_str, stub_u64_from_str)]
@@ -464,10 +477,52 @@ pub fn serve_range1_open() {
     serve_range1_body(1)
 }
 #[kani::proof]
-#[kani::unwind(24)]
+#[kani::unwind(12)]
 #[kani::stub(std::time::SystemTime::now, hc::stub_now)]
 #[kani::stub(core::slice::memchr::memchr, hc::naive_memchr)]
 #[kani::stub(<u64 as std::str::FromStr>::from_str, stub_u64_from_str)]
 pub fn serve_range1_suffix() {
     serve_range1_body(2)
+}
+
+
+
+// ---- experiments (to be removed)
+fn mk(len: u64) -> HEnt { HEnt { len, etag: 0, etag_bytes: None, mtime: None, nhdr: 0 } }
+macro_rules! exp { ($n:ident, $u:expr, $body:expr) => {
+#[kani::proof]
+#[kani::unwind($u)]
+#[kani::stub(std::time::SystemTime::now, hc::stub_now)]
+pub fn $n() { let len: u64 = kani::any(); let f: fn(u64) = $body; f(len) } } }
+exp!(t1, 12, |len| {
+    let req = request(M_GET);
+    let r = req.headers().get(header::RANGE);
+    assert!(r.is_none());
+});
+exp!(t2, 12, |len| {
+    let req = request(M_GET);
+    let ent = mk(len);
+    let r = serve_inner(&ent, req.method(), req.headers());
+    match r { ServeInner::Simple(resp) => { assert!(resp.status().as_u16() == 200); std::mem::forget(resp); } _ => assert!(false) }
+});
+exp!(t3, 12, |len| {
+    let ent = mk(len);
+    let h = HeaderMap::new();
+    let r = serve_inner(&ent, &Method::GET, &h);
+    match r { ServeInner::Simple(resp) => { assert!(resp.status().as_u16() == 200); std::mem::forget(resp); } _ => assert!(false) }
+});
+exp!(t4, 12, |len| {
+    let r = crate::range::parse(None, len);
+    assert!(r == crate::range::ResolvedRanges::None);
+});
+fn stub_parse(_r: Option<&HeaderValue>, _len: u64) -> crate::range::ResolvedRanges { crate::range::ResolvedRanges::None }
+#[kani::proof]
+#[kani::unwind(12)]
+#[kani::stub(std::time::SystemTime::now, hc::stub_now)]
+#[kani::stub(crate::range::parse, stub_parse)]
+pub fn t5() { let len: u64 = kani::any();
+    let ent = mk(len);
+    let h = HeaderMap::new();
+    let r = serve_inner(&ent, &Method::GET, &h);
+    match r { ServeInner::Simple(resp) => { assert!(resp.status().as_u16() == 200); std::mem::forget(resp); } _ => assert!(false) }
 }
